@@ -73,7 +73,7 @@ Ops(c) == (IF c = 1 THEN {<<"start">>, <<"stop">>} ELSE {})
           \cup (IF WithClear /\ c = 1 THEN {<<"clear">>} ELSE {})
           \cup {<<"join">>, <<"joint">>, <<"joint0">>}          \* join(), join(timeout > 0), join(0)
           \cup {<<"enq", t>> : t \in {t \in Tasks : ts[t] = "new"}}
-          \cup (IF c = 1 THEN {<<"release", t>> : t \in {t \in gated : t \notin released}} ELSE {})
+          \cup {<<"release", t>> : t \in gated}        \* (any client may open a gate; opening it twice is harmless)
 
 Goto(c, pc) == cpc' = [cpc EXCEPT ![c] = pc]
 SetCl(c, r) == cl' = [cl EXCEPT ![c] = r]
